@@ -1,0 +1,155 @@
+//! Verification instrumentation (add-only). Compiled only with `--cfg orca_so_whirlpools_verif`.
+//! Records, per call of `manager::swap_manager::swap`, the sequence of swap steps the loop
+//! executed, in a thread-local buffer the deterministic simulator under /verif reads.
+//! Nothing here influences the computation.
+
+use crate::manager::fee_rate_manager::FeeRateManager;
+use crate::math::SwapStepComputation;
+use std::cell::RefCell;
+
+#[derive(Clone, Debug, Default)]
+pub struct SwapStep {
+    pub sqrt_price_start: u128,
+    pub sqrt_price_next: u128,
+    /// target handed to compute_swap (bounded by the adaptive-fee manager)
+    pub sqrt_price_target: u128,
+    /// min/max(next initialized tick price, price limit)
+    pub sqrt_price_outer_target: u128,
+    pub liquidity: u128,
+    pub total_fee_rate: u32,
+    pub amount_in: u64,
+    pub amount_out: u64,
+    pub fee_amount: u64,
+    pub protocol_fee_after: u64,
+    pub fee_growth_global_input_after: u128,
+    pub next_tick_index: i32,
+    pub next_array_index: usize,
+    pub curr_tick_index_before: i32,
+    /// Some(tick) when an initialized tick was crossed at the end of this step
+    pub crossed_tick: Option<i32>,
+    pub liquidity_after_cross: u128,
+    pub adaptive: bool,
+    pub adaptive_skipped: bool,
+    pub tick_group_index: i32,
+    pub volatility_accumulator: u32,
+    pub volatility_reference: u32,
+    pub tick_group_index_reference: i32,
+}
+
+#[derive(Clone, Debug, Default)]
+pub struct SwapTrace {
+    pub whirlpool_sqrt_price: u128,
+    pub whirlpool_liquidity: u128,
+    pub whirlpool_tick_current_index: i32,
+    pub amount: u64,
+    pub sqrt_price_limit: u128,
+    pub amount_specified_is_input: bool,
+    pub a_to_b: bool,
+    pub timestamp: u64,
+    pub steps: Vec<SwapStep>,
+}
+
+thread_local! {
+    static TRACES: RefCell<Vec<SwapTrace>> = const { RefCell::new(Vec::new()) };
+}
+
+pub fn take() -> Vec<SwapTrace> {
+    TRACES.with(|t| std::mem::take(&mut *t.borrow_mut()))
+}
+
+pub fn clear() {
+    TRACES.with(|t| t.borrow_mut().clear());
+}
+
+#[allow(clippy::too_many_arguments)]
+pub fn swap_begin(
+    whirlpool_sqrt_price: u128,
+    whirlpool_liquidity: u128,
+    whirlpool_tick_current_index: i32,
+    amount: u64,
+    sqrt_price_limit: u128,
+    amount_specified_is_input: bool,
+    a_to_b: bool,
+    timestamp: u64,
+) {
+    TRACES.with(|t| {
+        t.borrow_mut().push(SwapTrace {
+            whirlpool_sqrt_price,
+            whirlpool_liquidity,
+            whirlpool_tick_current_index,
+            amount,
+            sqrt_price_limit,
+            amount_specified_is_input,
+            a_to_b,
+            timestamp,
+            steps: Vec::new(),
+        })
+    });
+}
+
+#[allow(clippy::too_many_arguments)]
+pub fn swap_step(
+    c: &SwapStepComputation,
+    sqrt_price_start: u128,
+    sqrt_price_target: u128,
+    sqrt_price_outer_target: u128,
+    liquidity: u128,
+    total_fee_rate: u32,
+    adaptive_skipped: bool,
+    frm: &FeeRateManager,
+    next_tick_index: i32,
+    next_array_index: usize,
+    curr_tick_index_before: i32,
+) {
+    let mut s = SwapStep {
+        sqrt_price_start,
+        sqrt_price_next: c.next_price,
+        sqrt_price_target,
+        sqrt_price_outer_target,
+        liquidity,
+        total_fee_rate,
+        amount_in: c.amount_in,
+        amount_out: c.amount_out,
+        fee_amount: c.fee_amount,
+        next_tick_index,
+        next_array_index,
+        curr_tick_index_before,
+        adaptive_skipped,
+        ..Default::default()
+    };
+    if let FeeRateManager::Adaptive {
+        tick_group_index,
+        adaptive_fee_variables,
+        ..
+    } = frm
+    {
+        s.adaptive = true;
+        s.tick_group_index = *tick_group_index;
+        s.volatility_accumulator = adaptive_fee_variables.volatility_accumulator;
+        s.volatility_reference = adaptive_fee_variables.volatility_reference;
+        s.tick_group_index_reference = adaptive_fee_variables.tick_group_index_reference;
+    }
+    TRACES.with(|t| {
+        if let Some(tr) = t.borrow_mut().last_mut() {
+            tr.steps.push(s);
+        }
+    });
+}
+
+pub fn swap_step_fees(protocol_fee_after: u64, fee_growth_global_input_after: u128) {
+    TRACES.with(|t| {
+        if let Some(s) = t.borrow_mut().last_mut().and_then(|tr| tr.steps.last_mut()) {
+            s.protocol_fee_after = protocol_fee_after;
+            s.fee_growth_global_input_after = fee_growth_global_input_after;
+        }
+    });
+}
+
+pub fn swap_step_cross(tick_index: i32, liquidity_after: u128) {
+    TRACES.with(|t| {
+        if let Some(s) = t.borrow_mut().last_mut().and_then(|tr| tr.steps.last_mut()) {
+            s.crossed_tick = Some(tick_index);
+            s.liquidity_after_cross = liquidity_after;
+        }
+    });
+}
